@@ -340,11 +340,11 @@ def handleObj (st : DState) (parts : List String) : Option (DState × String) :=
          | some ai, some ti =>
            (match st.atlases.lookup ai with
             | some a =>
-              if k == "M" then
+              if k == "M" || k == "H" then
                 (match parseValue st.types ti arg with
                  | some v => (match mMarshal st a f ti v with | some b => hexOrDash b | none => "err")
                  | none => "bad")
-              else if k == "U" then
+              else if k == "U" || k == "B" then
                 (match parseHex arg with
                  | some bs =>
                    (match (if f == "cbor" then
@@ -580,7 +580,7 @@ partial def loop (hin : IO.FS.Stream) (hout : IO.FS.Stream) (st : DState) : IO U
   match l.splitOn " " with
   | id :: rest0 =>
     -- `clonev` (source passed by value instead of by pointer) is the same function of the value in the model
-    let rest := match rest0 with | "clonev" :: r => "clone" :: r | "schedb" :: r => "sched" :: r | "schedk" :: r => "sched" :: r | "autogenj" :: r => "autogen" :: r | "frame0" :: f :: r => "frame" :: (f ++ "0") :: r | r => r
+    let rest := match rest0 with | "clonev" :: r => "clone" :: r | "schedb" :: r => "sched" :: r | "rfaultw" :: r => "rfault" :: r | "schedk" :: r => "sched" :: r | "autogenj" :: r => "autogen" :: r | "frame0" :: f :: r => "frame" :: (f ++ "0") :: r | r => r
     match handleObj st rest with
     | some (st', out) =>
       hout.putStrLn (id ++ " " ++ out)
